@@ -391,6 +391,39 @@ pub fn corpus() -> Vec<Case> {
             }],
             params: vec![Ty::Adt(0, vec![]), Ty::Option(Box::new(Ty::Int)), Ty::Bool],
         },
+        // a list of pairs reached while its Pair is still being registered (recursive generic)
+        Case {
+            decls: vec![
+                DataType {
+                    arity: 2,
+                    ctors: vec![
+                        Ctor { tag: None, fields: vec![], labelled: false },
+                        Ctor {
+                            tag: None,
+                            fields: vec![Ty::List(Box::new(Ty::Pair(Box::new(Ty::Adt(0, vec![Ty::Var(0), Ty::Var(1)])), Box::new(Ty::Var(1)))))],
+                            labelled: false,
+                        },
+                        Ctor { tag: None, fields: vec![Ty::Var(0)], labelled: false },
+                    ],
+                    record: false,
+                    as_list: false,
+                },
+                DataType {
+                    arity: 0,
+                    ctors: vec![
+                        Ctor { tag: None, fields: vec![], labelled: false },
+                        Ctor {
+                            tag: None,
+                            fields: vec![Ty::Pair(Box::new(Ty::Adt(0, vec![Ty::Void, Ty::Bool])), Box::new(Ty::Bool))],
+                            labelled: false,
+                        },
+                    ],
+                    record: false,
+                    as_list: false,
+                },
+            ],
+            params: vec![Ty::Adt(1, vec![])],
+        },
         // @list record, maps, pairs, tuples
         Case {
             decls: vec![DataType { arity: 0, ctors: vec![Ctor { tag: None, fields: vec![Ty::Int, Ty::Bytes], labelled: true }], record: true, as_list: true }],
